@@ -404,6 +404,8 @@ def gen_volt(rng, sample):
         std = rng.choice([0.0, 1.0, 2.0, 3.0, 0.5, round(rng.uniform(0.01, 30), rng.randint(0, 5)), 1e-8, 1e6])
         ops.append([tgt, rng.randrange(nant), hx(rng.choice([0.0, 0.0, 1.5, -2.0])), hx(std), pol])
     c = dict(kind=kind, npols=(1 if kind == "stream" else npols), nant=nant, seed=rng.randint(0, 10 ** 6), ops=ops)
+    if kind == "array" and rng.random() < 0.4:
+        c["update"] = True
     if sample and kind != "stream":
         for o in c["ops"]:
             if fh(o[3]) > 100 or (0 < fh(o[3]) < 0.01):
@@ -462,6 +464,19 @@ def run_volt(ctx, cases):
                         # `x**2` on numpy scalars goes through libm's pow, which is not guaranteed correctly rounded: allow a few ulps
                         if not (close(f2(mown[a]), own, 1e-15) and close(f2(mbg), bg, 1e-15) and close(f2(mtot[a]), tot, 1e-15)):
                             ctx.mismatch("%s: binary64 model own/bg/total %r/%r/%r, implementation %r/%r/%r" % (where, f2(mown[a]), f2(mbg), f2(mtot[a]), own, bg, tot), c)
+            if "upd" in r:
+                u_ = r["upd"]; n = u_["n"]
+                est, was = u_["bgsrc"][p], u_["before"][p]
+                ctx.tally("volt_bg_update", "checked")
+                if abs(est - was) > SIGMA * was / math.sqrt(2 * n) + 1e-12 * max(1.0, was):
+                    ctx.impl_violation("background-update-estimate", "pol %d: the background stream's update_noise() estimates %r from %d samples, its sources add up to %r" % (p, est, n, was), c)
+                for a in range(c["nant"]):
+                    if u_["bg"][a][p] != est:
+                        ctx.impl_violation("background-propagation", "after the background stream's update_noise(): antenna %d pol %d keeps background deviation %r, the background stream now says %r"
+                                           % (a, p, u_["bg"][a][p], est), c)
+                    want = math.sqrt(u_["own"][a][p] ** 2 + est ** 2)
+                    if abs(u_["total"][a][p] - want) > 1e-12 * max(want, 1e-300):
+                        ctx.impl_violation("total-quadrature", "after the background stream's update_noise(): antenna %d pol %d total %r, own and background in quadrature %r" % (a, p, u_["total"][a][p], want), c)
             if "emp" in r:
                 for a in range(c["nant"]):
                     claimed = fh(r["rows"][-1]["total"][a][p]); emp = r["emp"][a][p]; n = r["n"]
